@@ -1,5 +1,638 @@
 package h
 
-func (r *Runner) checkAllSynced(when string)     {}
-func (r *Runner) checkSyncPolicy(i int, op *Op)   {}
-func (r *Runner) checkStatExact(when string)      {}
+import (
+	"bytes"
+	"fmt"
+	"io"
+	"os"
+	"path/filepath"
+	"sort"
+	"strconv"
+	"strings"
+
+	kv "github.com/XiXi-2024/xixi-kv"
+	"github.com/XiXi-2024/xixi-kv/datafile"
+	"github.com/XiXi-2024/xixi-kv/vsim/vos"
+)
+
+// ---------------------------------------------------------------------------------------------------------
+// C13: sync policy, as invariants of the disk model evaluated at the return of every public call
+// ---------------------------------------------------------------------------------------------------------
+
+type syncTrack struct {
+	next     int         // next journal index to scan
+	unsynced map[int]int // ino -> unsynced bytes (all writers)
+	lastData string      // newest data file seen so far in db/
+}
+
+func isDBData(p string) bool { return strings.HasPrefix(p, "db/") && strings.HasSuffix(p, ".data") }
+
+// scanJournal advances the incremental unsynced-bytes tracker and checks the rotation rule: when a data file
+// with a higher id is created, the previous newest data file has nothing unsynced.
+func (r *Runner) scanJournal() {
+	st, _ := r.extra["sync"].(*syncTrack)
+	if st == nil {
+		st = &syncTrack{unsynced: map[int]int{}}
+		r.extra["sync"] = st
+	}
+	j := r.FS.Journal
+	for ; st.next < len(j); st.next++ {
+		e := &j[st.next]
+		switch e.Kind {
+		case vos.KWrite, vos.KMWrite:
+			st.unsynced[e.Ino] += len(e.Data)
+		case vos.KSync, vos.KMSync:
+			st.unsynced[e.Ino] = 0
+		case vos.KCreate:
+			if isDBData(e.Path) {
+				if st.lastData != "" && e.Path > st.lastData {
+					// find the inode the previous newest file had at this moment: it cannot have been renamed
+					// since (data files are only renamed into place by adoption, which precedes any create)
+					if prev := r.FS.Live.File(st.lastData); prev != nil {
+						if n := st.unsynced[prev.Ino]; n > 0 {
+							r.fail("rotation-unsynced", "", "data file %s was created while %s still had %d unsynced bytes (a file must be flushed before the engine rotates away from it)", e.Path, st.lastData, n)
+						}
+						r.inc("rotations_checked")
+					}
+				}
+				if e.Path > st.lastData {
+					st.lastData = e.Path
+				}
+			}
+		case vos.KRename:
+			if isDBData(e.Path2) && e.Path2 > st.lastData {
+				st.lastData = e.Path2
+			}
+		}
+	}
+}
+
+// unsyncedOf returns the unsynced bytes of a model file, optionally only those written by operations for which
+// pred(opIndex) holds, with the lenient padding allowance.
+func (r *Runner) unsyncedOf(f *vos.MFile, pred func(op int) bool) (total int, entries int) {
+	for _, idx := range f.Unsynced {
+		e := &r.FS.Journal[idx]
+		if pred != nil && !pred(e.Op) {
+			continue
+		}
+		total += len(e.Data)
+		entries++
+	}
+	return
+}
+
+func (r *Runner) checkAllSynced(when string) {
+	r.FS.Mark(-2)
+	for _, n := range r.FS.Live.SortedNames() {
+		if !strings.HasPrefix(n, "db/") || !(strings.HasSuffix(n, ".data")) {
+			continue
+		}
+		f := r.FS.Live.File(n)
+		if tot, _ := r.unsyncedOf(f, nil); tot > 0 {
+			r.fail("unsynced-after-"+strings.ToLower(when), "", "%s returned while %s still has %d unsynced bytes", when, n, tot)
+			return
+		}
+	}
+	r.inc("all_synced_checks")
+}
+
+// checkSyncPolicy evaluates the policy invariants after step i returned.
+func (r *Runner) checkSyncPolicy(i int, op *Op) {
+	r.scanJournal()
+	if r.violated() || r.DB == nil {
+		return
+	}
+	ops := r.C.Clients[0]
+	plain := func(o int) bool { return o >= 0 && o < len(ops) && (ops[o].K == "put" || ops[o].K == "del") }
+	switch op.K {
+	case "put", "del":
+		if r.Cfg.Sync == 1 { // Always
+			for _, n := range r.dataFiles("db") {
+				f := r.FS.Live.File(n)
+				if tot, _ := r.unsyncedOf(f, plain); tot > 0 {
+					r.fail("always-unsynced", "", "SyncStrategy Always: %s returned while %s has %d unsynced bytes written by Put/Delete", op.K, n, tot)
+					return
+				}
+			}
+			r.inc("always_checks")
+		}
+	case "sync":
+		r.checkAllSynced("Sync")
+	case "batch":
+		if op.Flag {
+			touched := map[int]string{}
+			for idx := range r.FS.Journal {
+				e := &r.FS.Journal[idx]
+				if e.Op == i && (e.Kind == vos.KWrite || e.Kind == vos.KMWrite) && isDBData(e.Path) {
+					touched[e.Ino] = e.Path
+				}
+			}
+			for ino, p := range touched {
+				f := r.FS.Live.Inodes[ino]
+				if f == nil {
+					continue
+				}
+				if tot, _ := r.unsyncedOf(f, func(o int) bool { return o == i }); tot > 0 {
+					r.fail("sync-batch-unsynced", "", "Commit of a Sync batch returned while %s has %d unsynced bytes of the batch (sealing record included)", p, tot)
+					return
+				}
+			}
+			r.inc("sync_batch_checks")
+		}
+	}
+	if r.Cfg.Sync == 2 && r.Cfg.BPS > 0 { // Threshold: at any return
+		total := 0
+		for _, n := range r.dataFiles("db") {
+			f := r.FS.Live.File(n)
+			tot, ents := r.unsyncedOf(f, plain)
+			total += tot - 7*ents // block-tail padding is not counted (the engine's own unit, the lenient reading)
+		}
+		if total >= int(r.Cfg.BPS) {
+			r.fail("threshold-exceeded", "", "SyncStrategy Threshold(%d): after %s at least %d bytes appended by acknowledged Put/Delete are unflushed", r.Cfg.BPS, op.K, total)
+			return
+		}
+		r.inc("threshold_checks")
+	}
+}
+
+// ---------------------------------------------------------------------------------------------------------
+// C17: Stat and space accounting recomputed from the files
+// ---------------------------------------------------------------------------------------------------------
+
+type scanRec struct {
+	key   string
+	typ   byte
+	batch uint64
+	fid   uint32
+	size  uint32
+	pos   *datafile.DataPos
+	val   []byte
+}
+
+// scanDir scans the logical content of every data file below rel (e.g. "db") of the live model with the package's own
+// sequential reader and returns the records per file id.
+func (r *Runner) scanDir(rel string) (map[uint32][]scanRec, []uint32, error) {
+	tmp := filepath.Join(ScratchBase, fmt.Sprintf("vsim-scan-%d", os.Getpid()))
+	_ = os.RemoveAll(tmp)
+	if err := os.MkdirAll(tmp, 0o755); err != nil {
+		return nil, nil, err
+	}
+	defer os.RemoveAll(tmp)
+	r.FS.Mark(-3) // harvest mapped stores
+	out := map[uint32][]scanRec{}
+	var ids []uint32
+	for _, n := range r.dataFiles(rel) {
+		f := r.FS.Live.File(n)
+		base := filepath.Base(n)
+		id64, err := strconv.ParseUint(strings.TrimSuffix(base, ".data"), 10, 32)
+		if err != nil {
+			continue
+		}
+		id := uint32(id64)
+		if err := os.WriteFile(filepath.Join(tmp, base), logicalContent(f), 0o644); err != nil {
+			return nil, nil, err
+		}
+		df, err := datafile.OpenFile(tmp, id, datafile.DataFileSuffix, 0)
+		if err != nil {
+			return nil, nil, err
+		}
+		rd := df.NewReader()
+		for {
+			rec, pos, err := rd.NextLogRecord()
+			if err == io.EOF {
+				break
+			}
+			if err != nil {
+				_ = df.Close()
+				return nil, nil, fmt.Errorf("scanning %s: %v", n, err)
+			}
+			out[id] = append(out[id], scanRec{key: string(rec.Key), typ: rec.Type, batch: rec.BatchID, fid: id, size: pos.Size, pos: pos, val: rec.Value})
+		}
+		_ = df.Close()
+		ids = append(ids, id)
+	}
+	sort.Slice(ids, func(a, b int) bool { return ids[a] < ids[b] })
+	return out, ids, nil
+}
+
+type liveRec struct {
+	fid  uint32
+	size uint32
+	val  []byte
+}
+
+// replayRecords applies scanned records in log order (batches at their sealing record).
+func replayRecords(recs map[uint32][]scanRec, ids []uint32) map[string]liveRec {
+	live := map[string]liveRec{}
+	pending := map[uint64][]scanRec{}
+	apply := func(s scanRec) {
+		if s.typ == datafile.LogRecordDeleted {
+			delete(live, s.key)
+		} else {
+			live[s.key] = liveRec{s.fid, s.size, s.val}
+		}
+	}
+	for _, id := range ids {
+		for _, s := range recs[id] {
+			if s.batch == 0 {
+				if s.typ == datafile.LogRecordBatchFinished {
+					continue
+				}
+				apply(s)
+				continue
+			}
+			if s.typ == datafile.LogRecordBatchFinished {
+				for _, p := range pending[s.batch] {
+					apply(p)
+				}
+				delete(pending, s.batch)
+			} else {
+				pending[s.batch] = append(pending[s.batch], s)
+			}
+		}
+	}
+	return live
+}
+
+func (r *Runner) checkStatExact(when string) {
+	if r.DB == nil {
+		return
+	}
+	var st *kv.Stat
+	if !r.call("Stat", func() { st = r.DB.Stat() }) {
+		return
+	}
+	if st.KeyNum != len(r.M) {
+		r.fail("stat-keynum", "", "%s: Stat.KeyNum = %d, the database holds %d keys", when, st.KeyNum, len(r.M))
+		return
+	}
+	nfiles := len(r.dataFiles("db"))
+	if st.DataFileNum != nfiles {
+		r.fail("stat-datafilenum", "", "%s: Stat.DataFileNum = %d, the directory holds %d data files", when, st.DataFileNum, nfiles)
+		return
+	}
+	if st.ReclaimableSize < 0 || st.ReclaimableSize > st.DiskSize {
+		r.fail("stat-range", "", "%s: ReclaimableSize = %d, DiskSize = %d (want 0 <= Reclaimable <= Disk)", when, st.ReclaimableSize, st.DiskSize)
+		return
+	}
+	recs, ids, err := r.scanDir("db")
+	if err != nil {
+		old := r.judging
+		r.judging = false
+		r.fail("scan-error", "", "%s: %v", when, err)
+		r.judging = old
+		return
+	}
+	live := replayRecords(recs, ids)
+	var sum int64
+	for _, l := range live {
+		sum += int64(l.size)
+	}
+	if len(live) != len(r.M) {
+		// the files themselves disagree with the model: not an accounting problem
+		old := r.judging
+		r.judging = false
+		r.fail("scan-mismatch", "", "%s: files hold %d live keys, model %d", when, len(live), len(r.M))
+		r.judging = old
+		return
+	}
+	if st.DiskSize-st.ReclaimableSize != sum {
+		r.fail("stat-live-bytes", "", "%s: DiskSize-ReclaimableSize = %d-%d = %d, live records occupy %d bytes", when, st.DiskSize, st.ReclaimableSize, st.DiskSize-st.ReclaimableSize, sum)
+		return
+	}
+	r.inc("stat_checks")
+	r.checkSizeLimit(when, recs, ids)
+}
+
+// checkSizeLimit: a data file exceeds the DataFileSize in force when it was written only when it holds a single
+// record (plus, for a batch, its sealing record) that alone exceeds the limit.
+func (r *Runner) checkSizeLimit(when string, recs map[uint32][]scanRec, ids []uint32) {
+	limits, _ := r.extra["limits"].(map[int]int64)
+	if limits == nil {
+		limits = map[int]int64{}
+		r.extra["limits"] = limits
+	}
+	seen, _ := r.extra["limitsNext"].(int)
+	for ; seen < len(r.FS.Journal); seen++ {
+		e := &r.FS.Journal[seen]
+		// the limit in force when a file was written: the largest DataFileSize under which anything was appended
+		// (this is evaluated after every step, so r.Cfg is the configuration the new entries were written under)
+		if (e.Kind == vos.KCreate || e.Kind == vos.KWrite || e.Kind == vos.KMWrite) && strings.HasSuffix(e.Path, ".data") {
+			if r.Cfg.FileSize > limits[e.Ino] {
+				limits[e.Ino] = r.Cfg.FileSize
+			}
+		}
+	}
+	r.extra["limitsNext"] = seen
+	for _, id := range ids {
+		n := fmt.Sprintf("db/%09d.data", id)
+		f := r.FS.Live.File(n)
+		if f == nil {
+			continue
+		}
+		limit, ok := limits[f.Ino]
+		if !ok {
+			continue
+		}
+		logical := int64(len(logicalContent(f)))
+		if logical <= limit {
+			continue
+		}
+		data := 0
+		var first scanRec
+		for _, s := range recs[id] {
+			if s.typ != datafile.LogRecordBatchFinished {
+				if data == 0 {
+					first = s
+				}
+				data++
+			}
+		}
+		if data != 1 || int64(first.size) <= limit {
+			r.fail("file-over-limit", "", "%s: %s holds %d bytes (limit %d when written) in %d data records (first record %d bytes): a file may exceed the limit only for a single record that alone exceeds it", when, n, logical, limit, data, first.size)
+			return
+		}
+		r.inc("oversized_files_ok")
+	}
+}
+
+// ---------------------------------------------------------------------------------------------------------
+// C18: hint file fidelity, checked after a successful Merge and before adoption
+// ---------------------------------------------------------------------------------------------------------
+
+func (r *Runner) checkHint() {
+	r.FS.Mark(-4)
+	hintName := "db-merge/000000000.hint"
+	hf := r.FS.Live.File(hintName)
+	if hf == nil {
+		r.fail("hint-missing", "", "Merge succeeded but %s does not exist", hintName)
+		return
+	}
+	tmp := filepath.Join(ScratchBase, fmt.Sprintf("vsim-hint-%d", os.Getpid()))
+	_ = os.RemoveAll(tmp)
+	_ = os.MkdirAll(tmp, 0o755)
+	defer os.RemoveAll(tmp)
+	if err := os.WriteFile(filepath.Join(tmp, "000000000.hint"), hf.Data, 0o644); err != nil {
+		r.Infra = err.Error()
+		return
+	}
+	type hinted struct {
+		key string
+		pos datafile.DataPos
+	}
+	var hints []hinted
+	var herr error
+	ok := r.call("NextHintRecord", func() {
+		df, err := datafile.OpenFile(tmp, 0, datafile.HintFileSuffix, 0)
+		if err != nil {
+			herr = err
+			return
+		}
+		defer df.Close()
+		rd := df.NewReader()
+		for {
+			k, pos, err := rd.NextHintRecord()
+			if err == io.EOF {
+				return
+			}
+			if err != nil {
+				herr = err
+				return
+			}
+			hints = append(hints, hinted{string(k), *pos})
+		}
+	})
+	if !ok {
+		return
+	}
+	if herr != nil {
+		r.fail("hint-unreadable", "", "reading the hint file: %v", herr)
+		return
+	}
+	recs, ids, err := r.scanDir("db-merge")
+	if err != nil {
+		r.fail("merged-unreadable", "", "scanning the merged files: %v", err)
+		return
+	}
+	type ent struct {
+		key                    string
+		fid, block, off, size uint32
+	}
+	want := map[ent]int{}
+	vals := map[ent][]byte{}
+	for _, id := range ids {
+		for _, s := range recs[id] {
+			e := ent{s.key, s.fid, s.pos.BlockID, s.pos.Offset, s.size}
+			want[e]++
+			vals[e] = s.val
+			if s.typ != datafile.LogRecordNormal {
+				r.fail("merged-nonlive-record", "", "merged file %d holds a record of type %d for key %q", id, s.typ, s.key)
+				return
+			}
+		}
+	}
+	for _, h := range hints {
+		e := ent{h.key, h.pos.Fid, h.pos.BlockID, h.pos.Offset, h.pos.Size}
+		if want[e] == 0 {
+			r.fail("hint-entry-without-record", "", "hint entry (key %q, file %d, block %d, offset %d, size %d) matches no record of the merged files", h.key, h.pos.Fid, h.pos.BlockID, h.pos.Offset, h.pos.Size)
+			return
+		}
+		want[e]--
+		if live, ok := r.M[h.key]; !ok || !beq(live, vals[e]) {
+			r.fail("hint-entry-not-live", "", "hint entry for key %q points at %s, the live value is %s", h.key, show(vals[e]), show(live))
+			return
+		}
+	}
+	for e, n := range want {
+		if n != 0 {
+			r.fail("record-without-hint", "", "merged record (key %q, file %d, block %d, offset %d) has no hint entry", e.key, e.fid, e.block, e.off)
+			return
+		}
+	}
+	if len(hints) != len(r.M) {
+		r.fail("hint-key-count", "", "the hint file names %d keys, the database holds %d", len(hints), len(r.M))
+		return
+	}
+	r.inc("hint_checks")
+	r.add("hint_entries", int64(len(hints)))
+	if len(ids) > 1 {
+		r.inc("hint_multi_file_output")
+	}
+	// hint path vs scan path on two copies of the tree
+	r.compareHintAndScanOpen()
+}
+
+func (r *Runner) copyTreeTo(sub string) error {
+	for _, n := range r.FS.Live.SortedNames() {
+		if !strings.HasPrefix(n, "db/") && !strings.HasPrefix(n, "db-merge/") {
+			continue
+		}
+		f := r.FS.Live.File(n)
+		p := filepath.Join(r.Root, sub, n)
+		if err := os.MkdirAll(filepath.Dir(p), 0o755); err != nil {
+			return err
+		}
+		if err := os.WriteFile(p, logicalContent(f), 0o644); err != nil {
+			return err
+		}
+	}
+	return nil
+}
+
+// logicalContent returns the logical bytes of a model file: for a file that is still pre-extended by an open
+// memory mapping that is the written high-water mark, otherwise the physical content.
+func logicalContent(f *vos.MFile) []byte {
+	if f.Size-int64(len(f.Data)) > blockSz {
+		return f.Data
+	}
+	return f.Content()
+}
+
+type openView struct {
+	dump *Dump
+	st   kv.Stat
+}
+
+func (r *Runner) openAndView(dir string, times int) (*openView, string) {
+	var v openView
+	for t := 0; t < times; t++ {
+		var db *kv.DB
+		var err error
+		p, fr := protect(func() { db, err = kv.Open(r.options(r.Cfg, dir)) })
+		if p != "" {
+			return nil, fmt.Sprintf("Open panicked: %s (in %s)", clip(p, 200), fr)
+		}
+		if err != nil {
+			return nil, "Open: " + errName(err)
+		}
+		d, f := dumpDB(db, r.Ever)
+		if f != "" {
+			_ = db.Close()
+			return nil, f
+		}
+		v.dump = d
+		v.st = *db.Stat()
+		if err := db.Close(); err != nil {
+			return nil, "Close: " + errName(err)
+		}
+	}
+	return &v, ""
+}
+
+func (r *Runner) compareHintAndScanOpen() {
+	if err := r.copyTreeTo("cpA"); err != nil {
+		r.Infra = err.Error()
+		return
+	}
+	if err := r.copyTreeTo("cpB"); err != nil {
+		r.Infra = err.Error()
+		return
+	}
+	a, fa := r.openAndView(filepath.Join(r.Root, "cpA", "db"), 1)
+	if fa != "" {
+		r.fail("hint-open", "", "opening through the hint file: %s", fa)
+		return
+	}
+	b, fb := r.openAndView(filepath.Join(r.Root, "cpB", "db"), 2)
+	if fb != "" {
+		r.fail("scan-open", "", "opening by scanning the adopted files: %s", fb)
+		return
+	}
+	if d := diffState(a.dump, State(b.dump.Vals)); d != "" {
+		r.fail("hint-vs-scan", "", "hint-path Open and scan-path Open differ: %s", d)
+		return
+	}
+	if d := diffState(a.dump, r.M); d != "" {
+		r.fail("hint-vs-model", "", "hint-path Open differs from the database: %s", d)
+		return
+	}
+	if a.st.KeyNum != b.st.KeyNum || a.st.DiskSize-a.st.ReclaimableSize != b.st.DiskSize-b.st.ReclaimableSize {
+		r.fail("hint-vs-scan-sizes", "", "hint-path Open reports KeyNum %d live bytes %d, scan-path Open KeyNum %d live bytes %d", a.st.KeyNum, a.st.DiskSize-a.st.ReclaimableSize, b.st.KeyNum, b.st.DiskSize-b.st.ReclaimableSize)
+		return
+	}
+	r.inc("hint_vs_scan_opens")
+	_ = vos.RemoveAll(filepath.Join(r.Root, "cpA"))
+	_ = vos.RemoveAll(filepath.Join(r.Root, "cpB"))
+}
+
+// ---------------------------------------------------------------------------------------------------------
+// C06: what the directory must look like after the adopting restart
+// ---------------------------------------------------------------------------------------------------------
+
+// mergeMarkerID returns the id of the data file the last Merge rotated to (the first file that did not take part),
+// derived from the journal: the highest data file created in db/ during the merge step.
+func (r *Runner) markerOf(step int) (uint32, bool) {
+	best := ""
+	for i := range r.FS.Journal {
+		e := &r.FS.Journal[i]
+		if e.Op == step && e.Kind == vos.KCreate && isDBData(e.Path) && e.Path > best {
+			best = e.Path
+		}
+	}
+	if best == "" {
+		return 0, false
+	}
+	id, err := strconv.ParseUint(strings.TrimSuffix(filepath.Base(best), ".data"), 10, 32)
+	return uint32(id), err == nil
+}
+
+func (r *Runner) checkAdopted(mergeStep int, liveAtMerge map[string]map[string]bool) {
+	marker, ok := r.markerOf(mergeStep)
+	if !ok {
+		return
+	}
+	// which files arrived by rename from the merge directory since the merge
+	arrived := map[string]bool{}
+	for i := range r.FS.Journal {
+		e := &r.FS.Journal[i]
+		if e.Op > mergeStep && e.Kind == vos.KRename && strings.HasPrefix(e.Path, "db-merge/") && isDBData(e.Path2) {
+			arrived[e.Path2] = true
+		}
+	}
+	if len(arrived) == 0 {
+		r.fail("merge-not-adopted", "", "Merge returned nil but the restart adopted none of its files")
+		return
+	}
+	recs, ids, err := r.scanDir("db")
+	if err != nil {
+		r.fail("scan-after-adoption", "", "%v", err)
+		return
+	}
+	for _, id := range ids {
+		if id >= marker {
+			continue
+		}
+		n := fmt.Sprintf("db/%09d.data", id)
+		if !arrived[n] {
+			r.fail("unmerged-file-left", "", "after adoption %s (id below the merge marker %d) is not one of the merged files: the garbage was not reclaimed", n, marker)
+			return
+		}
+	}
+	seen := map[string]bool{}
+	for _, id := range ids {
+		if id >= marker {
+			continue
+		}
+		for _, s := range recs[id] {
+			if s.typ != datafile.LogRecordNormal || s.batch != 0 {
+				r.fail("merged-garbage", "", "merged file %d holds a record of type %d batch %d (key %q)", id, s.typ, s.batch, s.key)
+				return
+			}
+			if seen[s.key] {
+				r.fail("merged-duplicate", "", "key %q occurs twice in the merged files", s.key)
+				return
+			}
+			seen[s.key] = true
+			if hist := liveAtMerge[s.key]; hist == nil || !hist[string(s.val)] {
+				r.fail("merged-stale-record", "", "merged record (%q, %s) was not live at any moment of the merge", s.key, show(s.val))
+				return
+			}
+		}
+	}
+	r.inc("adoptions_checked")
+	if len(arrived) < int(marker) {
+		r.inc("adoptions_fewer_files")
+	}
+}
+
+var _ = bytes.Equal
